@@ -13,4 +13,3 @@ INVARIANT FieldReadBack
 PROPERTY Frozen
 PROPERTY Local
 CHECK_DEADLOCK FALSE
-CONSTRAINT Bounded
